@@ -641,3 +641,19 @@ package rapid
 //@   loop 0 invariant [C09] 0 <= valid && valid <= checks && 0 <= invalid && invalid <= checks*10 && runs - old(runs) == valid + invalid
 //@   loop 0 invariant [C11] clean(t) && unlocked(t) && fresh(t)
 //@   loop 0 invariant [C07] implies(valid + invalid == 0, seed == old(seed))
+
+// ---------------------------------------------------------------------------------------------
+// persist.go
+
+//@ func loadFailFile
+//@   ensures [C17] implies(result3 == nil, len(now(split)) == 2)
+//@   ensures [C17] implies(result3 == nil, len(result2) == len(now(data)) - 1)
+//@   loop 0 invariant [C17] true
+//@   loop 1 invariant [C17] -1 <= rangeindex && rangeindex < len(data) - 1 && len(buf) == rangeindex + 1 && len(data) >= 1
+
+//@ func checkFailFile
+//@   noframe "replays the property"
+//@   requires [C17] prop != nil
+//@   ensures [C17] tbFailed == old(tbFailed) && tbErrors == old(tbErrors)
+//@   ensures [C17] implies(result1 != nil || result2 != nil, result1 != nil && !isInvalidData(result1.data))
+//@   modifies heap, drawn, lockmode, cancelled
